@@ -1,6 +1,7 @@
 ---- MODULE MC_Composite ----
 EXTENDS Composite
 ValSet == {-2, 1, 3}              \* the configuration file does not accept negative literals
+ValSet2 == {-2, 3}                \* for the longer histories of the thorough tier
 MetricAdds == {<<1, 1>>, <<2, 1>>, <<1, 2>>}
 LossAdds == {<<1, 4>>, <<1, 2>>, <<1, 1>>}
 ====
